@@ -64,6 +64,7 @@ class Cfg(object):
         self.instruments = ["none", "generic", "midi"]
         self.text = st.text(alphabet=st.characters(min_codepoint=32, max_codepoint=126), max_size=12)
         self.uniform_channel = False  # every note of a track on one channel
+        self.empty_containers = False  # some rests are written as an empty container ([]) instead of None
         self.__dict__.update(kw)
 
 
@@ -80,7 +81,8 @@ def content_st(cfg, channel=None):
     single = note_st(cfg, channel).map(lambda n: [n])
     opts = [chord, single]
     if cfg.rest_p:
-        return st.integers(0, cfg.rest_p - 1).flatmap(lambda k: st.none() if k == 0 else st.one_of(opts))
+        rest = (st.none() | st.just([])) if cfg.empty_containers else st.none()
+        return st.integers(0, cfg.rest_p - 1).flatmap(lambda k: rest if k == 0 else st.one_of(opts))
     return st.one_of(opts)
 
 
@@ -116,7 +118,7 @@ def bar_st(draw, cfg, meter=None, key=None, fill=None, channel=None):
 
 def _entry(draw, cfg, v, content):
     e = {"v": list(v), "notes": draw(content)}
-    if cfg.bpm_p and e["notes"] is not None and draw(st.integers(0, cfg.bpm_p - 1)) == 0:
+    if cfg.bpm_p and e["notes"] and draw(st.integers(0, cfg.bpm_p - 1)) == 0:
         e["bpm"] = draw(cfg.bpms)
     return e
 
@@ -160,15 +162,17 @@ def features(comp_or_track):
     f = set()
     for t in tracks:
         es = entries_of(t)
-        if es and es[0]["notes"] is None:
+        if es and not es[0]["notes"]:
             f.add("leading-rest")
-        if es and es[-1]["notes"] is None:
+        if es and not es[-1]["notes"]:
             f.add("trailing-rest")
         for a, b in zip(es, es[1:]):
-            if (a["notes"] is None) != (b["notes"] is None) and (len(a["notes"] or []) > 1 or len(b["notes"] or []) > 1):
+            if (not a["notes"]) != (not b["notes"]) and (len(a["notes"] or []) > 1 or len(b["notes"] or []) > 1):
                 f.add("rest-next-to-chord")
-        if any(e["notes"] is None for e in es):
+        if any(not e["notes"] for e in es):
             f.add("rest")
+        if any(e["notes"] == [] for e in es):
+            f.add("empty-container")
         if any(e["notes"] and len(e["notes"]) > 1 for e in es):
             f.add("chord")
         if any(e["v"][1] > 0 for e in es):
@@ -177,7 +181,7 @@ def features(comp_or_track):
             f.add("tuplet")
         if any("bpm" in e for e in es):
             f.add("tempo-change")
-        if any(all(e["notes"] is None for e in b["entries"]) and b["entries"] for b in t["bars"]):
+        if any(all(not e["notes"] for e in b["entries"]) and b["entries"] for b in t["bars"]):
             f.add("whole-bar-rest")
         ks = {(b["key"], tuple(b["meter"])) for b in t["bars"]}
         if len(ks) > 1:
